@@ -4,7 +4,7 @@ import re
 
 from ..astx import (calls_in, dotted, norm, src, iter_nodes, assigned_targets, assigned_names,
                     const_value, is_const, parent_chain)
-from ..lib import (cfg_nodes_with_call, node_calls, returns, raises, raised_class, stmt_assigns_attr, callee_last,
+from ..lib import (call_arg, relation, truth, other, cmp_views, core, holds_region, conditions, eval_conditions, relation_tests, atom_key, expand_condition, mode_mismatch_conditions, cfg_nodes_with_call, node_calls, returns, raises, raised_class, stmt_assigns_attr, callee_last,
                    is_name, node_roots, guard_region, compare_parts, find_test_nodes)
 from ..linear import ctext
 from ..loader import AnalysisError
@@ -258,9 +258,10 @@ def run(R):
         c.check(len(hs) == 1 and norm(hs[0].type) == 'TIMEOUT' and any(isinstance(s, ast.Break) for s in hs[0].body), tp, hs[0] if hs else loops[0],
                 'silence (TIMEOUT on one character) ends the loop', kind='ast', tag='loop-timeout')
         rk = [k for k in calls_in(loops[0]) if callee_last(k) == 'read_nonblocking']
-        ok = len(rk) == 1 and any(kw.arg == 'timeout' and isinstance(kw.value, ast.Name) and not is_const(kw.value, None) for kw in rk[0].keywords)
+        ta = call_arg(rk[0], 'timeout', 1) if len(rk) == 1 else None
+        ok = isinstance(ta, ast.Name)
         if ok:
-            tvn = [kw.value.id for kw in rk[0].keywords if kw.arg == 'timeout'][0]
+            tvn = ta.id
             tds = [s2 for s2 in iter_nodes(tp.node) if isinstance(s2, ast.Assign) and tvn in assigned_names(s2)]
             ok = bool(tds) and all(not is_const(s2.value, None) for s2 in tds)
         c.check(ok, tp, rk[0] if rk else loops[0], 'each character read has its own finite timeout', kind='ast', tag='char-timeout')
